@@ -34,6 +34,12 @@ TEXTS = [
     "(lambda q: (lambda x: x + 1)(x=q))(z)", "(lambda q, a: (lambda x: x.n())(x=a.First()))(c, e.jets)",
     "(lambda q: (lambda x, y: x + y)(q))(z)", "(lambda q: f((lambda x: x)(x=q), k=(lambda x: x)(q, 1)))(z)",
     "(lambda q: s.Select(lambda j: (lambda x: x + j)(x=q)))(z)",
+    # an argument mentions a name that a lambda / comprehension inside the inlined body binds: the local is renamed
+    "(lambda x: s.Select(lambda j: j.pt + x.met))(j)", "(lambda x: [j + x for j in s])(j)", "(lambda x: s.Select(lambda j: j + j_1 + x))(j)",
+    "(lambda x: s.Select(lambda j, k: j + k + x))(j + k)", "(lambda x, y: (lambda j: x + j)(1) + s.Select(lambda j: y))(j, j)",
+    "(lambda x: (lambda q, j: x + j)(q=1))(j)", "(lambda x: s.Select(lambda j: t.Select(lambda j: j + x)))(j)",
+    "(lambda x: [j + x for j in [j * 2 for j in x]])(j)", "(lambda x: (j + x for (j, k) in s if j > k))(j)",
+    "(lambda x: s.Select(lambda j: j + x).Where(lambda j_1: j_1 > x))(j + j_1)",
 ]
 
 
